@@ -78,24 +78,27 @@ theorem C16_degenerate_lists_collapse :
 `u` that `set_request_uri` accepts with options `o`, `get_request_uri` composes a text `u'`
 which is accepted again, decomposes to the same options as `u`, and is a fixed point.
 
-**Proved** for every accepted byte string `u` except two classes, spelled out as hypotheses:
+**Proved** for every accepted byte string `u` except one class, spelled out as hypothesis:
 * `hname` — the Uri-Host value does not spell an IP address (`coap://%31.2.3.4/`,
-  `coap://%3A%3A1/`, `coap://@[::1]/`).  There the composed URI is `coap://1.2.3.4/` resp.
-  `coap://[::1]/`, whose host is an IP literal, so the host moves from Uri-Host to the remote:
-  same destination, different options (RFC 7252 §6.4/§6.5 behave the same way).  The second
-  example below exhibits the difference on the model; the harness oracle compares the
-  effective destination on this class.
-* `hbr` — a `[` in the authority is its first character and the only one (`coap://a[::1]/`
-  is accepted by `urllib` but is no RFC 3986 authority).
+  `coap://%3A%3A1/`).  There the composed URI is `coap://1.2.3.4/` resp. `coap://[::1]/`, whose
+  host is an IP literal, so the host moves from Uri-Host to the remote: same destination,
+  different options (RFC 7252 §6.4 step 5 / §6.5 step 4 behave the same way, so no fix can remove
+  this class).  The second example below exhibits the difference on the model;
+  `C16_uri_opts_uri_iptext` below says what holds on that class instead.
 
-`laws` are the assumptions about Python's `ipaddress` (not modelled).  What is established:
-`u'` is composed, accepted, has the same scheme, Uri-Host, Uri-Port, Uri-Path, Uri-Query and
-port; for IP literals the whole message state is identical; and `u'` recomposes to itself. -/
+(The second excluded class of the first version of this theorem, `hbr : BracketLeads u` — a `[`
+that is not the first character of the authority, `coap://a[::1]/` —, is gone: such texts are
+rejected since the fix, see `C16_literal_is_whole_host`.)
+
+`laws` are the assumptions about Python's `ipaddress` (not modelled; none of them is about what
+a zone identifier contains).  What is established: `u'` is composed, accepted, has the same
+scheme, Uri-Host, Uri-Port, Uri-Path, Uri-Query and port; for IP literals the whole message state
+is identical; and `u'` recomposes to itself. -/
 theorem C16_uri_opts_uri_partial (ip : IpOracle) (laws : IpLaws ip) (u : Bytes) (hu : u.wf)
-    (o : Opts) (hok : setRequestUri ip u = .ok o) (hbr : BracketLeads u)
+    (o : Opts) (hok : setRequestUri ip u = .ok o)
     (hname : ∀ h, o.uriHost = some h → NotIpText ip h) :
     ∃ u' o', NormalForm ip o u' o' :=
-  normalForm_of_accepted laws hu hok hbr hname
+  normalForm_of_accepted laws hu hok hname
 
 -- 4. distinct resources never collapse ------------------------------------------------------
 
@@ -197,14 +200,17 @@ theorem C16_reject_unsplittable (ip : IpOracle) (u : Bytes) (h : urlsplit ip u =
 
 /-- The table of syntactic defects, in the order the code tests them.  For a text that splits
 into `p`: a fragment → Malformed; else no scheme → Incomplete; else a non-CoAP scheme → the
-text becomes Proxy-Uri; else each of: no host, user info, a path/query/host escape that is not
-UTF-8, a port that is not a number in 0..65535, an invalid IP literal → Malformed. -/
+text becomes Proxy-Uri; else each of: no host, user info, a bracket in the authority that is not
+part of a leading `[literal]` with unreserved zone identifier followed by nothing or `:`, a
+path/query/host escape that is not UTF-8, a port that is not a number in 0..65535, an invalid IP
+literal → Malformed. -/
 theorem C16_rejection_table (ip : IpOracle) (u : Bytes) (p : Parsed) (hsplit : urlsplit ip u = some p) :
     (p.fragment ≠ [] → setRequestUri ip u = .malformed) ∧
     (p.fragment = [] → p.scheme = [] → setRequestUri ip u = .incomplete) ∧
     (p.fragment = [] → p.scheme ≠ [] → p.scheme ∉ coapSchemes → setRequestUri ip u = .proxy) ∧
     (p.fragment = [] → p.scheme ∈ coapSchemes →
-      (hostnameOf p.netloc = none ∨ hasUserinfo p.netloc = true ∨ decodePath p.path = none ∨
+      (hostnameOf p.netloc = none ∨ hasUserinfo p.netloc = true ∨ literalOk p.netloc = false ∨
+        decodePath p.path = none ∨
         decodeQuery p.query = none ∨ portOf p.netloc = none ∨ undecidedHostinfo ip p.netloc = none ∨
         (∃ hn, hostnameOf p.netloc = some hn ∧
           (p.netloc.head? == some 91 || ip4Looking hn) = false ∧ unquoteStrict hn = none)) →
@@ -230,90 +236,66 @@ theorem C16_rejection_table (ip : IpOracle) (u : Bytes) (p : Parsed) (hsplit : u
       by_cases hu : hasUserinfo p.netloc = true
       · simp [hu]
       · simp only [hu, Bool.false_eq_true, ↓reduceIte]
-        cases hpath : decodePath p.path with
-        | none => rfl
-        | some path =>
-          cases hquery : decodeQuery p.query with
+        by_cases hlo : literalOk p.netloc = true
+        · simp only [hlo, Bool.not_true, Bool.false_eq_true, ↓reduceIte]
+          cases hpath : decodePath p.path with
           | none => rfl
-          | some query =>
-            simp only
-            cases hport : portOf p.netloc with
+          | some path =>
+            cases hquery : decodeQuery p.query with
             | none => rfl
-            | some port =>
+            | some query =>
               simp only
-              cases hund : undecidedHostinfo ip p.netloc with
+              cases hport : portOf p.netloc with
               | none => rfl
-              | some hostinfo =>
+              | some port =>
                 simp only
-                rcases hd with h | h | h | h | h | h | ⟨hn', h1, h2, h3⟩
-                · rw [hhn] at h; cases h
-                · exact absurd h hu
-                · rw [hpath] at h; cases h
-                · rw [hquery] at h; cases h
-                · rw [hport] at h; cases h
-                · rw [hund] at h; cases h
-                · rw [hhn] at h1; cases h1
-                  rw [if_neg (by simp [h2])]
-                  simp [h3]
+                cases hund : undecidedHostinfo ip p.netloc with
+                | none => rfl
+                | some hostinfo =>
+                  simp only
+                  rcases hd with h | h | h | h | h | h | h | ⟨hn', h1, h2, h3⟩
+                  · rw [hhn] at h; cases h
+                  · exact absurd h hu
+                  · rw [hlo] at h; cases h
+                  · rw [hpath] at h; cases h
+                  · rw [hquery] at h; cases h
+                  · rw [hport] at h; cases h
+                  · rw [hund] at h; cases h
+                  · rw [hhn] at h1; cases h1
+                    rw [if_neg (by simp [h2])]
+                    simp [h3]
+        · simp [hlo]
 
 /-- Conversely, an accepted text has none of the defects. -/
 theorem C16_accepted_has_no_defect (ip : IpOracle) (u : Bytes) (o : Opts)
     (h : setRequestUri ip u = .ok o) :
     ∃ p, urlsplit ip u = some p ∧ p.fragment = [] ∧ p.scheme ∈ coapSchemes ∧ o.scheme = p.scheme ∧
       (∃ hn, hostnameOf p.netloc = some hn) ∧ hasUserinfo p.netloc = false ∧
+      literalOk p.netloc = true ∧
       decodePath p.path = some o.path ∧ decodeQuery p.query = some o.query ∧
       (∃ port, portOf p.netloc = some port) ∧ undecidedHostinfo ip p.netloc = some o.hostinfo ∧
       o.uriPort = none := by
-  unfold setRequestUri at h
-  cases hsplit : urlsplit ip u with
-  | none => rw [hsplit] at h; cases h
-  | some p =>
-    rw [hsplit] at h
-    simp only at h
-    refine ⟨p, rfl, ?_⟩
-    unfold fromParsed at h
-    by_cases hf : p.fragment = []
-    · simp only [hf, ne_eq, not_true_eq_false, ↓reduceIte] at h
-      by_cases hs : p.scheme = []
-      · simp [hs] at h
-      · simp only [hs, ↓reduceIte] at h
-        by_cases hc : p.scheme ∈ coapSchemes
-        · have hc' : coapSchemes.contains p.scheme = true := by simpa using hc
-          simp only [hc', Bool.not_true, Bool.false_eq_true, ↓reduceIte] at h
-          cases hhn : hostnameOf p.netloc with
-          | none => simp [hhn] at h
-          | some hn =>
-            simp only [hhn] at h
-            by_cases hu : hasUserinfo p.netloc = true
-            · simp [hu] at h
-            · simp only [hu, Bool.false_eq_true, ↓reduceIte] at h
-              cases hpath : decodePath p.path with
-              | none => simp [hpath] at h
-              | some path =>
-                cases hquery : decodeQuery p.query with
-                | none => simp [hpath, hquery] at h
-                | some query =>
-                  simp only [hpath, hquery] at h
-                  cases hport : portOf p.netloc with
-                  | none => simp [hport] at h
-                  | some port =>
-                    simp only [hport] at h
-                    cases hund : undecidedHostinfo ip p.netloc with
-                    | none => simp [hund] at h
-                    | some hostinfo =>
-                      simp only [hund] at h
-                      have hmem : p.scheme ∈ coapSchemes := hc
-                      split at h
-                      · injection h with h; subst h
-                        exact ⟨hf, hmem, rfl, ⟨hn, rfl⟩, by simpa using hu, rfl, rfl, ⟨port, rfl⟩,
-                          rfl, rfl⟩
-                      · split at h
-                        · cases h
-                        · injection h with h; subst h
-                          exact ⟨hf, hmem, rfl, ⟨hn, rfl⟩, by simpa using hu, rfl, rfl,
-                            ⟨port, rfl⟩, rfl, rfl⟩
-        · simp [hc] at h
-    · simp [hf] at h
+  obtain ⟨p, hsplit, A⟩ := setRequestUri_ok_inv h
+  obtain ⟨hn, hhn, _⟩ := A.host
+  exact ⟨p, hsplit, A.fragment, A.scheme, A.oscheme, ⟨hn, hhn⟩, A.userinfo, A.literal, A.path,
+    A.query, A.port, A.hostinfo, A.uriPort⟩
+
+/-- **An IP literal in brackets is the whole host** (new with the fix that rejects
+`coap://a[::1]/`, `coap://evil.example[::1]:7/x`, `coap://[::1]x:7/`): when the authority of an
+accepted text contains a bracket at all, it reads `[` t `]` rest with no bracket inside `t`,
+`rest` empty or starting with `:` (it is then the port, a number: `C16_accepted_has_no_defect`),
+and an unreserved zone identifier (`coap://[::1%a b]/` is rejected); the host is that literal —
+no Uri-Host option — and it is what the remote is made of. -/
+theorem C16_literal_is_whole_host (ip : IpOracle) (u : Bytes) (o : Opts) (p : Parsed)
+    (hok : setRequestUri ip u = .ok o) (hsplit : urlsplit ip u = some p)
+    (hbr : 91 ∈ p.netloc ∨ 93 ∈ p.netloc) :
+    ∃ t rest, p.netloc = [91] ++ t ++ [93] ++ rest ∧ 91 ∉ t ∧ 93 ∉ t ∧
+      (rest = [] ∨ rest.head? = some 58) ∧ zoneOk t = true ∧
+      o.uriHost = none ∧ hostnameOf p.netloc = some (lowerUntilPct t) := by
+  obtain ⟨p', hsplit', A⟩ := setRequestUri_ok_inv hok
+  rw [hsplit] at hsplit'
+  cases hsplit'
+  exact literal_shape (urlsplit_facts hsplit).brackets A hbr
 
 /-- A text without any `:` has no scheme: it is never accepted and never taken for a
 Proxy-Uri; it is rejected as Incomplete, or as Malformed when it also carries a fragment or
@@ -348,11 +330,13 @@ theorem C16_no_colon_rejected (ip : IpOracle) (u : Bytes) (h : 58 ∉ u) :
 def exIp : IpOracle := { norm6 := fun t => if t = [58, 58, 49] then some t else none }
 
 theorem exIp_laws : IpLaws exIp := by
-  refine ⟨?_, ?_, ?_⟩ <;> intro x y h <;> simp only [exIp] at h <;> split at h
+  refine ⟨?_, ?_, ?_, ?_⟩ <;> intro x y h <;> simp only [exIp] at h <;> split at h
   · injection h with h; subst h; rename_i hx; subst hx
     exact ⟨by simp [exIp], by decide, by decide, by decide, by decide⟩
   · cases h
-  · injection h with h; subst h; exact fun c hc => Or.inl hc
+  · injection h with h; subst h; rename_i hx; subst hx; decide
+  · cases h
+  · injection h with h; subst h; rfl
   · cases h
   · injection h with h; rename_i hx; subst hx; decide
   · cases h
@@ -365,16 +349,14 @@ def exTextOpts : Opts :=
   { scheme := [99,111,97,112], hostinfo := [72,58,48,48,56,48], uriHost := some [104],
     uriPort := none, path := [[126]], query := [] }
 
-example : exText.wf ∧ BracketLeads exText ∧ setRequestUri exIp exText = .ok exTextOpts ∧
-    NotIpText exIp [104] := by
-  refine ⟨by decide, ?_, ?_, ⟨by decide, by decide⟩⟩
-  · intro h; exact absurd h (by decide)
+example : exText.wf ∧ setRequestUri exIp exText = .ok exTextOpts ∧ NotIpText exIp [104] := by
+  refine ⟨by decide, ?_, ⟨by decide, by decide⟩⟩
   · simp [setRequestUri, urlsplit, splitAuthority, splitScheme, schemeOk, sanitise, before, after,
       takeUntil, dropUntil, isUnsafeWs, isC0Space, exText, isSchemeChar, isAlpha, isUpper, isLower,
       isDigit, asciiLower, lowerChar, isNetlocDelim, bracketsOk, fromParsed, coapSchemes,
       hostnameOf, rawHostname, hostinfoOf, afterLast, lowerUntilPct, hasUserinfo, beforeLast,
       decodePath, decodeQuery, splitOn, decodeSegs, unquoteStrict, portOf, rawPort, allDigits,
-      decToNat, undecidedHostinfo, ip4Looking, utf8Valid, exTextOpts,
+      decToNat, undecidedHostinfo, ip4Looking, utf8Valid, exTextOpts, literalOk,
       unquote_escape (a := 55) (b := 101) (x := 7) (y := 14) [] (by decide) (by decide), unquote_nil,
       unquote_cons_ne (c := 104) [] (by decide)]
 
@@ -413,7 +395,7 @@ def exIp4 : Resource :=
 
 example : exIp6.WF exIp :=
   { scheme := by decide
-    host := ⟨by decide, by decide, by decide, by decide, by decide⟩
+    host := ⟨by decide, by decide, by decide, by decide, by decide, by decide⟩
     port := by intro p hp; cases hp; decide
     path := ⟨by decide, by decide⟩
     query := ⟨by decide, by decide⟩ }
